@@ -11,9 +11,18 @@ PROP = {
                    "confirmed with poll(2), then at most 5 driver polls)."),
     "level_note": ("Trusted: kernel delivers pipe/socket data in FIFO order per descriptor; the order in which several pending reads "
                    "on one descriptor are served is the kernel's business (conservation only). Thread-pool jobs are judged late only "
-                   "after the log shows the pool thread finished."),
+                   "after the log shows the pool thread finished. Legs `rt*`: the same question one level up — 2-8 receive / pipe "
+                   "read / file read / accept operations awaited inside the block_on future (waker = the driver's own waker) or in "
+                   "spawned tasks, data present before submission or provided by feeder threads while the runtime sleeps, queue "
+                   "capacity 1..64 (completions reaped inside a submission). Oracle: own result exactly once; and logical "
+                   "quiescence — all data provided, program unfinished, runtime thread asleep (state S, no context switch, five "
+                   "looks): an unrelated I/O completion (kick) that lets it finish proves a reaped completion whose wake-up was "
+                   "lost; data still unread in a descriptor with its read pending after the kick is a stranded operation; anything "
+                   "else is inconclusive."),
     "technique": "runtime monitoring: tagged-data conservation oracle + event-log exactly-once checker over seeded operation soups",
-    "rule": SOUP_RULE + "; C02 weighting: 2-12 ops, readiness/poll/pop dominated schedules, completion bursts",
+    "rule": SOUP_RULE + "; C02 weighting: 2-12 ops, readiness/poll/pop dominated schedules, completion bursts; rt legs: a case is one "
+             "program, distinct = (driver, queue-capacity class, op kind, awaited in main future / task, data ready at submit / "
+             "fed late, more ops than queue entries?)",
     "assumptions": ["loopback/pipe/socketpair semantics of this sandbox"],
     "legs": [
         {"name": "plain", "build": "plain", "pkg": "vdrv", "cmd": "c02", "shards": 16,
@@ -21,6 +30,12 @@ PROP = {
          "timeout_s": {"quick": 240, "thorough": 900}},
         {"name": "asan", "build": "asan", "pkg": "vdrv", "cmd": "c02", "shards": 8,
          "args": {"quick": ["--no-canary", "--iters", 60, "--budget-ms", 45000], "thorough": ["--no-canary", "--iters", 1500, "--budget-ms", 420000]},
+         "timeout_s": {"quick": 240, "thorough": 900}},
+        {"name": "rt", "build": "plain", "pkg": "vdrv", "cmd": "c02r", "shards": 8,
+         "args": {"quick": ["--iters", 1200, "--budget-ms", 50000], "thorough": ["--iters", 40000, "--budget-ms", 420000]},
+         "timeout_s": {"quick": 240, "thorough": 900}},
+        {"name": "rt-asan", "build": "asan", "pkg": "vdrv", "cmd": "c02r", "shards": 2,
+         "args": {"quick": ["--iters", 300, "--budget-ms", 45000], "thorough": ["--iters", 8000, "--budget-ms", 420000]},
          "timeout_s": {"quick": 240, "thorough": 900}},
     ],
 }
